@@ -354,3 +354,25 @@ prop("C19",
           "exactly along a meridian (azimuths 0/180), crossing at 20-80% of both segments or 20-100% beyond one end); distinct = distinct JSON; all non-trivial",
      assumptions=["segments straddling the 180th meridian are not generated (outside the property)"],
      note=GEO_NOTE)
+
+
+# When the implementation differs from the model, `check_case` evaluates the property's own
+# relation on what was observed: if it holds the verdict is S (correspondence broken, reported
+# as VIOLATION ... no-failing-input-found), otherwise V (the input is the replay).  DESIGN 10.5a.
+RELATION = {
+ "C01": "same database up to one unit of the last printed digit of every leaf (close_val) and an identical second encoding",
+ "C02": "the whole session except the number of the lap still open at the end of the log",
+ "C03": "identical database except accumulated distances within 1e-9 relative + 1 um (overall distance one 0.1 m step) and rounded channels within half a unit of their source value",
+ "C04": "the clauses of C04 and C05 evaluated on the observed run (prop_ok): every encoder run is for a validated, non-skipped group of the listing with that group's concat list and the configured argv; one run per video; an invalid group makes processing return an error",
+ "C05": "the clauses of C04 and C05 evaluated on the observed run (prop_ok): never over an existing output unless overwriting; no temp file left; nothing that existed is gone and only outputs changed; listed paths are outputs carrying their first chapter's time",
+ "C07": "one unit in the last place for values of elements of the 64-bit raw types (j, J, Q) only; streams with a stored scale entry of zero on which the decoder errors are outside the quantifier (O)",
+ "C08": "identical tree; per sensor element offsets within 1 us of the model's, first reading exactly at the sample's start, non-decreasing",
+ "C09": "an error where the statement allows 'errors or decoded as empty'",
+ "C10": "dual-unit fields within 2e-5 relative of the model (1e-5 of the exact definitions for single columns), every other field exactly",
+ "C11": "OBD channels of fixes from stale rows before the first or after the last fresh reading are free; all others exactly",
+ "C13": "the document is the printed form (LapTimer syntax) of the value read back, which is the original up to the format's precision; escaping that differs but parses to the same tree",
+ "C15": "an error where the model accepts (a stricter decoder); accepting what the model rejects stays V",
+ "C16": "metadata equal up to the fix description's wording, which must be one injective function of the fix value over the read",
+}
+for _pid, _rel in RELATION.items():
+    PROPS[_pid]["text"] += "  When the implementation differs from the model the property's own relation is evaluated on the observations (" + _rel + "): if it holds the run is reported as a broken correspondence (no-failing-input-found), otherwise as a violation with that input."
